@@ -577,6 +577,9 @@ theorem cInv_step {g : Graph} (hi : CInv H g) (u : Upd) (hu : netsOk u) : CInv H
     simp only [Graph.step]
     have h0 : CInv H { g with polKeys := C02.mset nid key g.polKeys } := cInv_frame hi rfl rfl rfl rfl
     exact cInv_frame (cInv_arcPolicy h0 nid v) rfl rfl rfl rfl
+  | passthru c key v =>
+    exact ⟨rsInv_quietRel (quietRel_emit g _ (by intro x hx; simp at hx; subst hx; cases v <;> rfl)) hi.rs,
+      iInv_emit hi.ii _ (by intro x hx; simp at hx; subst hx; cases v <;> rfl)⟩
   | other => exact hi
 
 theorem endpointUpdate_noSet {r r' : C03.Resolver} {calls : List Call} (h : r.flush = some (r', calls)) :
